@@ -366,7 +366,8 @@ impl error::EndOfInputError for IfCaseEndOfInputError {
             .into(),
             format![
                 "the input ended while skipping case {}",
-                self.total_cases_to_skip + 1 - self.cases_left_to_skip
+                // Calculated with 64 bits because the case number can be the largest integer.
+                (self.total_cases_to_skip as i64) + 1 - (self.cases_left_to_skip as i64)
             ]
             .into(),
         ]
